@@ -16,6 +16,9 @@ class ClassView:
         self.isobj = c.get('isobj', False)
         self.fields = []        # (fid, kind list, name)
         self.derived = set()    # fids assigned by write pre-processing
+        self.read_derived = set()   # fids assigned (not decoded) by read(): selectors such as apiMajor / _present
+        self.derivs = []        # (len fid, cast type, container fid, multiplier)
+        self.pads = False
         self._collect(meta, name, 0, '')
         self.fields.sort()
 
@@ -27,6 +30,12 @@ class ClassView:
             self.fields.append((f['id'] + shift, f['kind'], prefix + f['name'], f['init']))
         for d in c.get('assigned_in_write', []):
             self.derived.add(d + shift)
+        for d in c.get('assigned_in_read', []):
+            self.read_derived.add(d + shift)
+        for lf, t, cf, k in c.get('derivs', []):
+            self.derivs.append((lf + shift, t, cf + shift, k))
+        if c.get('pads'):
+            self.pads = True
         for m in c['members']:
             self._collect(meta, m['cls'], shift + m['shift'], prefix + m['name'] + '.')
 
@@ -83,6 +92,8 @@ def gen_object(rng, cv, mode):
         if kind[0] == 'scalar':
             if fid in cv.derived and mode == 'api':
                 continue
+            if mode == 'api' and name in ('signature', 'headerVersion', 'objectType'):
+                continue        # set by the constructor; the API user leaves them alone
             if rng.random() < 0.25 and fid not in cv.derived:
                 continue
             if kind[2]:     # double: any bit pattern
@@ -90,7 +101,15 @@ def gen_object(rng, cv, mode):
             else:
                 sets.append('%d=%d' % (fid, scalar_values(rng, kind[1], small=(fid in cv.derived and rng.random() < 0.7))))
         elif kind[0] == 'vec':
-            n = vec_len(rng) * kind[1]
+            ne = vec_len(rng)
+            if mode == 'api':
+                # representable: the element count (times its multiplier) fits every length member derived from it
+                for lf, t, cf, k in cv.derivs:
+                    if cf == fid:
+                        mx = ((1 << (8 * W[t])) - 1) // k
+                        if ne > mx:
+                            ne = mx if rng.random() < 0.5 else rng.randrange(0, mx + 1)
+            n = ne * kind[1]
             sets.append('%d=x%s' % (fid, rand_bytes(rng, n).hex()))
         elif kind[0] == 'array':
             if rng.random() < 0.8:
@@ -199,6 +218,8 @@ def lines_agree(model, impl):
             return True     # indeterminate value read in the model: the code's behaviour is unconstrained
         if mt[2] in ('oobread', 'oobwrite') and len(it) > 1 and it[1] == 'ok':
             return True     # out-of-container access the sanitizers cannot see (inside capacity / SSO buffer)
+        if mt[2] in ('oobread', 'oobwrite') and it[0] == 'CRASH' and len(it) > 1 and it[1] in ('ub', 'oobread', 'oobwrite', 'asan'):
+            return True     # e.g. UBSan: copy through the null data() of an empty vector
         return False
     if len(mt) != len(it):
         return False
